@@ -1,5 +1,5 @@
 /-
-  C07: the hypotheses of the property theorems (`ValidParams`, `ValidSigma`, `SizeOK`), the loop
+  C07: the hypotheses of the property theorems (`ValidParams`, `SigmaLen`, `SigmaLeMax`, `SizeOK`), the loop
   invariants and the helper lemmas about `Alpaqa.C07.run` that `Props/C07.lean` builds on
   (path split of `run`, invariant at every loop pass, data flow between consecutive inner solves).
 -/
@@ -55,9 +55,22 @@ theorem SigmaLen.hlen {m : Nat} {o : Option (Vec α)} (h : SigmaLen m o) :
     ∀ Sg, o = some Sg → Sg.length = m := by
   intro Sg e; subst e; exact h
 
-/-- The inner solver writes `err_z` in place (`rvec`, fixed size): it cannot change its length. -/
-def SizeOK (inner : InnerCall α → InnerResult α S) : Prop :=
-  ∀ c, (inner c).errz.length = c.errBuf.length
+/-- A well-sized inner call for a problem with `n` variables and `m` constraints: `x` has `n`
+    entries, `y`, `Σ` and the `err_z` buffer have `m`.  The ALM loop is *proved* to make only such
+    calls (`step_call_sized`, from `x.length = n`, `y.length = m`, `SigmaLen`), so nothing below is
+    assumed about what an inner solver does when it is handed ill-sized buffers. -/
+structure SizedCall (n m : Nat) (c : InnerCall α) : Prop where
+  x : c.x.length = n
+  y : c.y.length = m
+  sigma : c.sigma.length = m
+  errBuf : c.errBuf.length = m
+
+/-- The inner solver writes `x`, `y`, `err_z` in place (`rvec`, fixed size): on a well-sized call it
+    hands them back with the sizes it got.  Only well-sized calls are constrained. -/
+structure SizeOK (n m : Nat) (inner : InnerCall α → InnerResult α S) : Prop where
+  errz : ∀ c, SizedCall n m c → (inner c).errz.length = m
+  x : ∀ c, SizedCall n m c → (inner c).x.length = n
+  y : ∀ c, SizedCall n m c → (inner c).y.length = m
 
 variable (nan inf : α) (acc0 : A) (accAdd : A → S → A) (P : ALMParams α) (prob : Problem α)
   (x y : Vec α) (Sig0 : Option (Vec α)) (inner : InnerCall α → InnerResult α S)
@@ -190,41 +203,70 @@ theorem almInit_len (hlen : ∀ Sg, Sig0 = some Sg → Sg.length = prob.m) : Len
   · unfold almInit; simp
   · unfold almInit; simp
 
-theorem lenInv_step (hin : SizeOK inner) (i : Nat) (st st' : LoopState α A) (x y : Vec α)
-    (h : LenInv prob.m st) (hc : (STEP i st x y).out = .cont st') : LenInv prob.m st' := by
-  have hl : (STEP i st x y).res.errz.length = st.Sig_curr.length := by
-    rw [mkStep_res, hin, mkStep_call]; simp only []; rw [h.1, h.2.1]
-  rw [(step_cont P prob accAdd _ _ inner hc).2.2.2.2]
-  exact ⟨by simp only []; rw [upw_length _ _ _ _ _ _ _ _ hl, h.1], h.2.2, by rw [hl, h.1]⟩
+theorem projMult_len (y : Vec α) (M : α) : (projMult prob y M).length = y.length := by
+  unfold projMult C15.projMultipliers; simp
 
-theorem step_errz_len (hin : SizeOK inner) (i : Nat) (st : LoopState α A) (x y : Vec α)
-    (h : LenInv prob.m st) : (STEP i st x y).res.errz.length = st.Sig_curr.length := by
-  rw [mkStep_res, hin, mkStep_call]; simp only []; rw [h.1, h.2.1]
+/-- sizes carried around the loop: the buffers (`LenInv`) and the in/out arguments `x`, `y` -/
+def SzInv (n m : Nat) (st : LoopState α A) (x y : Vec α) : Prop :=
+  LenInv m st ∧ x.length = n ∧ y.length = m
+
+/-- **The ALM loop makes only well-sized inner calls** (the multiplier projection keeps the size). -/
+theorem step_call_sized (n i : Nat) (st : LoopState α A) (x y : Vec α) (h : SzInv n prob.m st x y) :
+    SizedCall n prob.m (STEP i st x y).call := by
+  rw [mkStep_call]
+  exact ⟨h.2.1, by simp only []; rw [projMult_len]; exact h.2.2, h.1.1, h.1.2.1⟩
+
+theorem step_errz_len {n : Nat} (hin : SizeOK n prob.m inner) (i : Nat) (st : LoopState α A) (x y : Vec α)
+    (h : SzInv n prob.m st x y) : (STEP i st x y).res.errz.length = st.Sig_curr.length := by
+  rw [mkStep_res, hin.errz _ (step_call_sized accAdd P prob Sig0 inner n i st x y h), h.1.1]
+
+theorem lenInv_step {n : Nat} (hin : SizeOK n prob.m inner) (i : Nat) (st st' : LoopState α A) (x y : Vec α)
+    (h : SzInv n prob.m st x y) (hc : (STEP i st x y).out = .cont st') : LenInv prob.m st' := by
+  have hl := step_errz_len accAdd P prob Sig0 inner hin i st x y h
+  rw [(step_cont P prob accAdd _ _ inner hc).2.2.2.2]
+  exact ⟨by simp only []; rw [upw_length _ _ _ _ _ _ _ _ hl, h.1.1], h.1.2.2, by rw [hl, h.1.1]⟩
+
+theorem szInv_step {n : Nat} (hin : SizeOK n prob.m inner) (i : Nat) (st st' : LoopState α A) (x y : Vec α)
+    (h : SzInv n prob.m st x y) (hc : (STEP i st x y).out = .cont st') :
+    SzInv n prob.m st' (STEP i st x y).res.x (STEP i st x y).res.y :=
+  ⟨lenInv_step accAdd P prob Sig0 inner hin i st st' x y h hc,
+   by rw [mkStep_res]; exact hin.x _ (step_call_sized accAdd P prob Sig0 inner n i st x y h),
+   by rw [mkStep_res]; exact hin.y _ (step_call_sized accAdd P prob Sig0 inner n i st x y h)⟩
 
 /-- sizes + a property `Q` of Σ that `update_penalty_weights` preserves -/
 def SigInv (Q : Vec α → Prop) (m : Nat) (st : LoopState α A) : Prop := LenInv m st ∧ Q st.Sig_curr
 
-theorem sigInv_step (Q : Vec α → Prop)
-    (hQ : ∀ Δ first e eo ne neo Sg, e.length = Sg.length → Q Sg →
-      Q (updatePenaltyWeights P Δ first e eo ne neo Sg))
-    (hin : SizeOK inner) (i : Nat) (st st' : LoopState α A) (x y : Vec α)
-    (h : SigInv Q prob.m st) (hc : (STEP i st x y).out = .cont st') : SigInv Q prob.m st' := by
-  refine ⟨lenInv_step accAdd P prob Sig0 inner hin i st st' x y h.1 hc, ?_⟩
-  rw [(step_cont P prob accAdd _ _ inner hc).2.2.2.2]
-  exact hQ _ _ _ _ _ _ _ (step_errz_len accAdd P prob Sig0 inner hin i st x y h.1) h.2
+/-- `SigInv` together with the sizes of `x`, `y` -/
+def SigSzInv (Q : Vec α → Prop) (n m : Nat) (st : LoopState α A) (x y : Vec α) : Prop :=
+  SigInv Q m st ∧ x.length = n ∧ y.length = m
 
-/-- every loop pass of a run starts with `m`-sized buffers and a Σ satisfying `Q`, for every
-    property `Q` that holds initially and is preserved by the penalty update -/
-theorem steps_sigInv (Q : Vec α → Prop)
+theorem SigSzInv.sz {Q : Vec α → Prop} {n m : Nat} {st : LoopState α A} {x y : Vec α}
+    (h : SigSzInv Q n m st x y) : SzInv n m st x y := ⟨h.1.1, h.2⟩
+
+theorem sigInv_step {n : Nat} (Q : Vec α → Prop)
     (hQ : ∀ Δ first e eo ne neo Sg, e.length = Sg.length → Q Sg →
       Q (updatePenaltyWeights P Δ first e eo ne neo Sg))
-    (hlen : ∀ Sg, Sig0 = some Sg → Sg.length = prob.m) (h0 : Q (INIT).Sig_curr) (hin : SizeOK inner)
+    (hin : SizeOK n prob.m inner) (i : Nat) (st st' : LoopState α A) (x y : Vec α)
+    (h : SigSzInv Q n prob.m st x y) (hc : (STEP i st x y).out = .cont st') :
+    SigSzInv Q n prob.m st' (STEP i st x y).res.x (STEP i st x y).res.y := by
+  have hs := szInv_step accAdd P prob Sig0 inner hin i st st' x y h.sz hc
+  refine ⟨⟨hs.1, ?_⟩, hs.2⟩
+  rw [(step_cont P prob accAdd _ _ inner hc).2.2.2.2]
+  exact hQ _ _ _ _ _ _ _ (step_errz_len accAdd P prob Sig0 inner hin i st x y h.sz) h.1.2
+
+/-- every loop pass of a run starts with `m`-sized buffers, well-sized `x`, `y` and a Σ satisfying
+    `Q`, for every property `Q` that holds initially and is preserved by the penalty update -/
+theorem steps_sigInv {n : Nat} (Q : Vec α → Prop)
+    (hQ : ∀ Δ first e eo ne neo Sg, e.length = Sg.length → Q Sg →
+      Q (updatePenaltyWeights P Δ first e eo ne neo Sg))
+    (hlen : ∀ Sg, Sig0 = some Sg → Sg.length = prob.m) (h0 : Q (INIT).Sig_curr)
+    (hin : SizeOK n prob.m inner) (hx : x.length = n) (hy : y.length = prob.m)
     (fuel : Nat) : ∀ s ∈ (LOOP fuel 0 INIT x y).steps,
-      ∃ x' y', SigInv Q prob.m s.st ∧ s = STEP s.i s.st x' y' := by
+      ∃ x' y', SigSzInv Q n prob.m s.st x' y' ∧ s = STEP s.i s.st x' y' := by
   intro s hs'
-  exact loop_steps_forall P prob accAdd _ _ inner (fun _ st _ _ => SigInv Q prob.m st)
+  exact loop_steps_forall P prob accAdd _ _ inner (fun _ st x y => SigSzInv Q n prob.m st x y)
     (fun i st x y st' hI hc => sigInv_step accAdd P prob Sig0 inner Q hQ hin i st st' x y hI hc)
-    fuel 0 INIT x y ⟨almInit_len nan inf acc0 P prob Sig0 hlen, h0⟩ s hs'
+    fuel 0 INIT x y ⟨⟨almInit_len nan inf acc0 P prob Sig0 hlen, h0⟩, hx, hy⟩ s hs'
 
 theorem map_eq_append_pair {β γ : Type} (f : β → γ) (l : List β) (pre : List γ) (a b : γ)
     (post : List γ) (h : l.map f = pre ++ a :: b :: post) :
@@ -248,19 +290,20 @@ theorem map_eq_append_triple {β γ : Type} (f : β → γ) (l : List β) (pre :
 
 /-- Consecutive inner solves of the loop: data flow from one pass to the next, for any invariant
     `J` of the loop-carried state. -/
-theorem history_pair (J : LoopState α A → Prop) (hJ0 : J INIT)
-    (hJ : ∀ i st st' x y, J st → (STEP i st x y).out = .cont st' → J st')
+theorem history_pair (J : LoopState α A → Vec α → Vec α → Prop) (hJ0 : J INIT x y)
+    (hJ : ∀ i st st' x y, J st x y → (STEP i st x y).out = .cont st' →
+      J st' (STEP i st x y).res.x (STEP i st x y).res.y)
     (fuel : Nat) (pre : List (InnerCall α × InnerResult α S)) (a b : InnerCall α × InnerResult α S)
     (post : List (InnerCall α × InnerResult α S))
     (h : (LOOP fuel 0 INIT x y).history = pre ++ a :: b :: post) :
     ∃ (i : Nat) (st st' : LoopState α A) (x' y' : Vec α),
-      J st ∧ (STEP i st x' y').out = .cont st' ∧
+      J st x' y' ∧ (STEP i st x' y').out = .cont st' ∧
       a = ((STEP i st x' y').call, (STEP i st x' y').res) ∧
       b = ((STEP (i + 1) st' a.2.x a.2.y).call, (STEP (i + 1) st' a.2.x a.2.y).res) := by
   rw [loop_history_eq] at h
   obtain ⟨pre', a', b', post', hst, rfl, rfl, _, _⟩ := map_eq_append_pair _ _ _ _ _ _ h
   obtain ⟨x', y', hI, ha, hout, hbi, hb⟩ := loop_steps_pairs P prob accAdd _ _ inner
-    (fun _ st _ _ => J st) (fun i st x y st' hI hc => hJ i st st' x y hI hc)
+    (fun _ st x y => J st x y) (fun i st x y st' hI hc => hJ i st st' x y hI hc)
     fuel 0 INIT x y hJ0 pre' a' b' post' hst
   have hb' : b' = STEP (a'.i + 1) b'.st a'.res.x a'.res.y := by rw [← hbi]; exact hb
   refine ⟨a'.i, a'.st, b'.st, x', y', hI, ?_, ?_, ?_⟩
@@ -269,13 +312,14 @@ theorem history_pair (J : LoopState α A → Prop) (hJ0 : J INIT)
   · simp only []; rw [← hb']
 
 /-- Three consecutive inner solves. -/
-theorem history_triple (J : LoopState α A → Prop) (hJ0 : J INIT)
-    (hJ : ∀ i st st' x y, J st → (STEP i st x y).out = .cont st' → J st')
+theorem history_triple (J : LoopState α A → Vec α → Vec α → Prop) (hJ0 : J INIT x y)
+    (hJ : ∀ i st st' x y, J st x y → (STEP i st x y).out = .cont st' →
+      J st' (STEP i st x y).res.x (STEP i st x y).res.y)
     (fuel : Nat) (pre : List (InnerCall α × InnerResult α S)) (z a b : InnerCall α × InnerResult α S)
     (post : List (InnerCall α × InnerResult α S))
     (h : (LOOP fuel 0 INIT x y).history = pre ++ z :: a :: b :: post) :
     ∃ (i : Nat) (st st' st'' : LoopState α A) (x' y' : Vec α),
-      J st ∧ (STEP i st x' y').out = .cont st' ∧
+      J st x' y' ∧ (STEP i st x' y').out = .cont st' ∧
       z = ((STEP i st x' y').call, (STEP i st x' y').res) ∧
       (STEP (i + 1) st' z.2.x z.2.y).out = .cont st'' ∧
       a = ((STEP (i + 1) st' z.2.x z.2.y).call, (STEP (i + 1) st' z.2.x z.2.y).res) ∧
@@ -283,7 +327,7 @@ theorem history_triple (J : LoopState α A → Prop) (hJ0 : J INIT)
   rw [loop_history_eq] at h
   obtain ⟨pre', z', a', b', post', hst, rfl, rfl, rfl⟩ := map_eq_append_triple _ _ _ _ _ _ _ h
   obtain ⟨x', y', hI, hz, hzout, hai, ha⟩ := loop_steps_pairs P prob accAdd _ _ inner
-    (fun _ st _ _ => J st) (fun i st x y st' hI hc => hJ i st st' x y hI hc)
+    (fun _ st x y => J st x y) (fun i st x y st' hI hc => hJ i st st' x y hI hc)
     fuel 0 INIT x y hJ0 pre' z' a' (b' :: post') hst
   have hst2 : (LOOP fuel 0 INIT x y).steps = (pre' ++ [z']) ++ a' :: b' :: post' := by
     rw [hst]; simp
